@@ -104,6 +104,9 @@ structure XState where
   streams : List (String × List (Option RawNode)) := []
   cfgFast : Bool := true
   fastOpen : Bool := true
+  legacyLatest : Option Nat := none   -- set by `adopt` while legacy-format versions are still stored
+  adoptedUpTo : Nat := 0              -- the latest legacy version at `adopt` (0 = no legacy database)
+  converted : List (Nat × Bytes) := [] -- legacy roots re-stored in the new format by commits without new nodes: (node version, hash)
   kv : KVState := KVState.empty
   kvPfx : Bytes := []
 
@@ -373,7 +376,23 @@ def parseIv (s : String) : Option Nat := if s == "-" then none else s.toNat?
 
 partial def exec (x : XState) (args : List String) : XState × String :=
   match args with
+  | "new" :: _ :: "legacy" :: _ => ({ init with opened := true }, "ok")   -- the legacy library starts on an empty store
   | "new" :: _ => (init, "ok")
+  | ["adopt"] =>
+    -- the current library opens the database the legacy library wrote: a fresh tree object, Load()
+    let (x', r) := stepOp x (.reopen x.cfgIv 0)
+    ({ x' with opened := true, fastOpen := x.cfgFast, legacyLatest := some (latestVer x.vs.versions),
+               adoptedUpTo := latestVer x.vs.versions }, r)
+  | ["ldel", v] =>
+    -- legacy DeleteVersion: any version but the latest
+    let n := v.toNat!
+    if n == latestVer x.vs.versions || (findVer x.vs.versions n).isNone then (x, "err")
+    else ({ x with vs := { x.vs with versions := x.vs.versions.filter (fun p => p.1 != n) } }, "ok")
+  | ["ldelrange", a, b] =>
+    let lo := a.toNat!
+    let hi := b.toNat!
+    if latestVer x.vs.versions < hi then (x, "err")
+    else ({ x with vs := { x.vs with versions := x.vs.versions.filter (fun p => p.1 < lo || p.1 ≥ hi) } }, "ok")
   | "fresh" :: _ => ({ init with streams := x.streams }, "ok")
   | "makenode" :: _ | "makelegacy" :: _ | "fastnode" :: _ | "decbytes" :: _ | "decvarint" :: _ | "decuvarint" :: _
   | "rootval" :: _ => (x, (codecExec args).getD "bad")
@@ -413,12 +432,39 @@ partial def exec (x : XState) (args : List String) : XState × String :=
   | ["rm", k] => match dec k with | some (some k) => stepOp x (.remove k) | _ => (x, "bad")
   | ["save"] =>
     let same := sameRoot x.vs
+    -- hazard K24: a commit whose root is a persisted *legacy* node re-stores that node under
+    -- (node version, 0); two different such roots with the same node version collide
+    let rootVer : Option Nat := match x.vs.working with
+      | some (.leaf _ _ (some u)) => some u
+      | some (.inner _ _ _ (some u) _ _) => some u
+      | _ => none
     let (x', r) := stepOp x (.save same)
-    if r == "err" then (x', r) else (x', r ++ " hash=" ++ enc (some (hashO 0 x'.vs.working)))
+    if r == "err" then (x', r) else
+    let h := hashO 0 x'.vs.working
+    let out := r ++ " hash=" ++ enc (some h)
+    match rootVer with
+    | some u =>
+      if x.adoptedUpTo > 0 && u ≤ x.adoptedUpTo then
+        let clash := x.converted.any (fun p => p.1 == u && p.2 != h)
+        ({ x' with converted := (u, h) :: x.converted }, if clash then out ++ " !K24" else out)
+      else (x', out)
+    | none => (x', out)
   | ["rollback"] => stepOp x .rollback
   | ["load", n] => stepOp x (.load n.toNat!)
-  | ["loadow", n] => stepOp x (.loadow n.toNat!)
-  | ["prune", n] => stepOp x (.prune n.toNat!)
+  | ["loadow", n] =>
+    let (x', r) := stepOp x (.loadow n.toNat!)
+    -- a rollback into the legacy range shortens it
+    (if r == "ok" then { x' with legacyLatest := x.legacyLatest.map (fun ll => min ll n.toNat!) } else x', r)
+  | ["prune", n] =>
+    -- legacy versions are deleted in bulk: a target below the latest legacy version deletes nothing yet
+    match x.legacyLatest with
+    | some ll =>
+      if n.toNat! < ll then
+        (if latestVer x.vs.versions ≤ n.toNat! then (x, "err") else (x, "ok"))
+      else
+        let (x', r) := stepOp x (.prune n.toNat!)
+        (if r == "ok" then { x' with legacyLatest := none } else x', r)
+    | none => stepOp x (.prune n.toNat!)
   | ["delfrom", n] => stepOp x (.delfrom n.toNat!)
   | ["whash"] => (x, enc (some (hashO x.vs.workingVersion x.vs.working)))
   | ["lhash"] => (x, enc (some (hashO 0 x.vs.lastSaved)))
